@@ -393,6 +393,7 @@ def run(P, chk, tier):
     chk.rule(R_DEST, "the counter posting carries the opposite amount")
     chk.rule(importers.R_ROWS, "every CSV record becomes exactly one transaction; reader options cannot drop records")
     sign_table(P, chk)
+    importers.csv_number_sign(P, chk, R_SIGN)
     counter_amount(P, chk)
     conversion_table(P, chk)
     row_order(P, chk)
